@@ -9,6 +9,8 @@ C05 line-protocol driver.   One case = one line of three or four fields:
   matcher  a F V val^V                  real method(0)/host(1)/path(2)/header(3) matcher, V ≥ 1 exact values
          | e K ST                       error matcher, kind K ∈ {0,1,2}, status ST (0 or 400..599)
          | l B                          legacy RequestMatcher answering B ∈ {0,1}
+         | c LO HI                      real `expression` matcher: error status placeholder in LO..HI
+         | k V val^V                    real `expression` matcher: error status placeholder in [vals]
          | n S set^S                    not
   handler  p ID | r ID ST | w ID PATH | f ID ST | s routes E [routes]     (E = 1: error routes follow)
          | x SRC                        the real `error` handler            SRC = 0 no status_code,
@@ -70,6 +72,14 @@ partial def pMatcher : P Matcher
     let (k, toks) ← pNat toks
     let (st, toks) ← pNat toks
     pure (.err k st, toks)
+  | "c" :: toks => do
+    let (lo, toks) ← pNat toks
+    let (hi, toks) ← pNat toks
+    pure (.errRange lo hi, toks)
+  | "k" :: toks => do
+    let (v, toks) ← pNat toks
+    let (vals, toks) ← pMany pNat v toks
+    pure (.errIn vals, toks)
   | "l" :: toks => do
     let (b, toks) ← pNat toks
     if b > 1 then none else pure (.legacy (b == 1), toks)
@@ -178,6 +188,8 @@ def kindKey : Matcher → Nat
   | .not _ => 7
   | .legacy false => 8
   | .legacy true => 9
+  | .errRange _ _ => 10
+  | .errIn _ => 10
 
 def distinct : List Nat → Bool
   | [] => true
@@ -188,6 +200,8 @@ def mValid : Matcher → Bool
   | .atom f vals => atomOk f vals
   | .err k st => k < 3 && errStatusOk st
   | .legacy _ => true
+  | .errRange lo hi => 100 ≤ lo && lo ≤ 599 && 100 ≤ hi && hi ≤ 599
+  | .errIn codes => !codes.isEmpty && codes.all (fun c => 100 ≤ c && c ≤ 599)
   | .not sets => setsValid sets
 def setsValid : List (List Matcher) → Bool
   | [] => true
@@ -263,6 +277,8 @@ def encMatcher : Matcher → List String
   | .atom f vals => ["a", toString (fieldNo f), toString vals.length] ++ vals.map toString
   | .err k st => ["e", toString k, toString st]
   | .legacy b => ["l", if b then "1" else "0"]
+  | .errRange lo hi => ["c", toString lo, toString hi]
+  | .errIn codes => ["k", toString codes.length] ++ codes.map toString
   | .not sets => ["n", toString sets.length] ++ encSets sets
 def encSets : List (List Matcher) → List String
   | [] => []
